@@ -75,3 +75,32 @@ def all_cut_sets(length: int):
     for k in range(len(positions) + 1):
         for comb in itertools.combinations(positions, k):
             yield ("cuts", list(comb))
+
+
+LIMITS = (2047, 2048, 8191, 8192, 65536)
+
+
+def limit_spec(rng, length: int):
+    """Cuts close to multiples of the sizes at which the readers change behaviour (frame limit, buffer guard)."""
+    cuts = set()
+    for _ in range(rng.randint(1, 3)):
+        lim = rng.choice(LIMITS)
+        if lim + 80 >= length:
+            lim = rng.choice((2047, 2048))
+            if lim + 80 >= length:
+                continue
+        k = rng.randint(1, max(1, length // lim))
+        cuts.add(min(length - 1, max(1, k * lim + rng.randint(-70, 70))))
+    return ("cuts", sorted(cuts)) if cuts else ("none",)
+
+
+def aligned_spec(stream: bytes, delimiter: int, every: int = 1, offset: int = 1):
+    """Cut exactly `offset` bytes after every `every`-th occurrence of the delimiter (line-by-line, frame-by-frame feeding)."""
+    cuts = []
+    n = 0
+    for i, b in enumerate(stream):
+        if b == delimiter:
+            n += 1
+            if n % every == 0 and 0 < i + offset < len(stream):
+                cuts.append(i + offset)
+    return ("cuts", cuts)
